@@ -17,7 +17,11 @@ Case grammar (one line, id added by vcheck):
       config::get(const char *, convertable *&), the form examples/cxx/config.cpp uses): [/ getp [/ '.'-string form]];
       op: a <pathspec> <valuehex|->   assign        r <pathspec>   remove
           d <pathspec>   (J) mark unused, (H, X) config::del with -1 / full / short explicit length
-          z <pathspec>   (R, X) assign without value      y <pathspec>   (G) remove(NULL) on the handle
+          z <pathspec>   (G, R, X) assign without value: configAssign(cfg, path, NULL) -> mpt_node_assign(.., NULL) /
+                         mpt_meta_set(&node->_meta, NULL); result "ok+" = the element still holds a value
+          t <pathspec> <ty> <valuehex>   (G) configAssign with a typed value: s string, p pointer to a NULL string,
+                         v vector of char, b array of char, i an integer (no text: refused)
+          y <pathspec>   (G) remove(NULL) on the handle
           l <pathspec>   query with a handler that walks the collection it receives (and one that refuses the first item)
           n <pathspec>   (G) the handle converted to a node pointer     k <pathspec>   (G) metatype side of the handle, clone;
                          (R, X) the forms without a path: remove(NULL), assign(NULL, value), query(NULL, NULL)
@@ -29,6 +33,11 @@ Case grammar (one line, id added by vcheck):
           | clr (mpt_path_invalidate / path::clear_data; "clrx": clear_data as long as it only cuts the array)
           | cp (copy construction) | asg (assignment to itself and into another path) | fork (the original stays alive)
   T                                     config::pointer_traits()
+  M <op>...                             mpt_meta_set on ONE metatype reference (meta_set.c: every branch)
+      op: s <hex> | v <hex> (text as string / vector of char) | i (an integer) | 0 (val == NULL)
+          | obj a|r | cfg a|r | it a|r  (the reference is given a value that IS an object / a configuration / an iterator and
+            accepts / refuses what mpt_meta_set asks of it) | view a (a view of the process-wide configuration)
+      observation: m:<ok|e>|<= same object, ! another one, + installed>|<kind>|<text the value shows>|u<releases seen>
   pathspec = <handle>:<sephex>:<str>[:<endhex>],  str = "~" (NULL) | "-" (empty string) | hex of the C string;
              endhex (kind G, operations a / r): the end character handed to mpt_config_set
 """
@@ -36,7 +45,8 @@ import itertools, os
 from vcheck import (DiffProperty, ASAN_ENV, VERIF, build_harness, build_model, run_cases)
 
 SEPS = [0x2e, 0x2f, 0x3a]
-ARITY = {"a": 2, "r": 1, "d": 1, "z": 1, "l": 1, "n": 1, "k": 1, "y": 1, "env": 3,
+ARITY = {"a": 2, "t": 3, "r": 1, "d": 1, "z": 1, "l": 1, "n": 1, "k": 1, "y": 1, "env": 3,
+         "s": 1, "v": 1, "i": 0, "0": 0, "obj": 1, "cfg": 1, "it": 1, "view": 1,
          "set": 2, "sets": 4, "next": 0, "last": 0, "del": 0, "add": 1, "post": 1, "bin": 0, "clr": 0, "clrx": 0, "cp": 0, "asg": 0, "fork": 0}
 
 # Two defects of /repo found by driving mpt::path copies (docs/notes_C10.md, "open defects"); each constant
@@ -94,7 +104,9 @@ class C10(DiffProperty):
             "H: the same through the C++ classes config::global / config::set / del / get<T>, R: C++ config::root through the virtual "
             "interface, X: config::root through its wrappers, J: raw config_item array with lazy removal and decoy items written behind "
             "_used) + a set of observation paths + a history of operations: assign, remove (also config::del with -1 / full / short "
-            "explicit length, mpt_config_set with an end character), assignment without value (R, X), remove(NULL) / conversion to a node "
+            "explicit length, mpt_config_set with an end character), assignment without value (G: configAssign(cfg, path, NULL) = "
+            "mpt_node_assign / mpt_meta_set with val == NULL; R, X), assignment of a typed value through the interface (G: string, pointer to "
+            "a NULL string, vector of char with nothing behind its bytes, array of char, an integer = refused), remove(NULL) / conversion to a node "
             "pointer / type list, addref, clone of a handle (G), listing through the collection a query handler receives (with a second "
             "handler that refuses the first item), config::environ with an explicit variable list or with its default arguments on a "
             "process environment set up by the case (H, X), the path-less forms remove(NULL) / assign(NULL, value) / query(NULL, NULL) of "
@@ -106,12 +118,19 @@ class C10(DiffProperty):
             "tree or slot array is dumped (H: through "
             "collectionEach); or (P / Q) one mpt path + a history of set (also path::set with explicit separator / assign character) "
             "/next/last/del/add/post/bin/clear/copy/assign, walked element by "
-            "element after every operation (Q: committed bytes through path::value(), post data through path::data()). quick: every history of length <= 3 over 5 paths x {assign, remove} for G, R and J and of "
+            "element after every operation (Q: committed bytes through path::value(), post data through path::data()); or (M) ONE metatype "
+            "reference + a history of mpt_meta_set calls (text as string / vector of char, an integer, no value) and installations of a value "
+            "that is an object / a configuration / an iterator (accepting or refusing) or a view of the process-wide configuration: after "
+            "every call result class, whether the reference holds the same object, the text it shows and how often the harness-made value "
+            "was released. quick: every history of length <= 3 over 5 paths x {assign, remove} for G, R and J and of "
             "length <= 2 for H and X (exhaustive), every history of length <= 3 over 8 operations of one view and the global handle "
             "around it, every string of length <= 4 over {sep, assign, 'a'} through path_set (string and explicit lengths) with "
             "next/last, plus random histories of 4..14 operations over path sets with shared prefixes, prefix-of-another paths, repeated "
             "and empty elements, separators . / :, element lengths 0,1,2,254,255,256,257 and value lengths "
-            "0,1,5,249,250,254,255,256,300,1000; random path build/walk histories in separator and binary mode with element lengths "
+            "0,1,5,249,250,254,255,256,300,1000 and 319..321, 447..449, 575..577 (block boundaries 128k-64 of the text buffer); directed "
+            "histories over value lengths 0,1,5,248..251,254..256,300,1000, 128k-64 +-1 up to 65600 and 65534..65536 (string / vector / "
+            "array; assign, no value, overwrite, refused integer, through a view) and element names of 65534 / 65535 / 65536 bytes; every "
+            "history of length <= 3 over 13 mpt_meta_set operations (kind M) + 300 random ones; random path build/walk histories in separator and binary mode with element lengths "
             "0,1,127,128,254..257. A case is non-trivial when it has a removal, a long element/value, an empty element, a view, one of "
             "the caller-level operations or a path operation beyond set; distinct = distinct case text")
     modelled = ("mptcore/config/{path_set,path_next,path_last,path_add,path_del,node_query,node_assign,config_global,config_set,config_get,"
@@ -129,8 +148,15 @@ class C10(DiffProperty):
                 "up to 249 bytes both, longer text in the C store vector only, in the C++ store both); mpt_path_addchar/valid (parser side) "
                 "are reduced to 'append post bytes'; config::environ is expanded by the driver into the assignments its documentation "
                 "promises (lower-cased names matching the pattern, in order, stop at the first refusal; fnmatch reduced to * and ?); "
-                "handle facts (type list, addref, clone, query(NULL), assign(NULL, ..)) are constants of the driver; allocation failures, "
-                "assignment without value through the C store (mpt_meta_set(.., NULL): iterator rewind or default metatype) are not modelled")
+                "handle facts (type list, addref, clone, query(NULL), assign(NULL, ..)) are constants of the driver; "
+                "assignment without value through the C store (cfg_assign_none: created without value / mpt_meta_set(.., NULL): text of up "
+                "to 249 bytes is replaced by the default metatype, longer text sits in a buffer metatype that is an iterator, is rewound and "
+                "STAYS - fits_basic) and of a value without text (cfg_assign_bad: refused, nothing changes, a view has made its base element "
+                "present) are operations of wstep; mpt_meta_set over every kind of value (meta_set_cell: object first - an error of an "
+                "accepting-type object ends the call -, then configuration, then iterator rewind / default metatype for val == NULL, "
+                "mpt_meta_new otherwise; the old value released exactly when replaced) is transcribed as a function on an abstract cell "
+                "(nothing / default / text / object / configuration / iterator with an accept flag / view); the default metatype and 'no "
+                "metatype' are one state of the tree model (no value); allocation failures are not modelled")
     trusted = ["harness/c10_store.c walks the node tree from the file-local nodeGlobal (config_global.c is #included) and the raw item "
                "arrays slot by slot, independently of the library; it writes decoy items into the unused capacity behind _used",
                "harness/c10_root.cpp drives config::root through the virtual config interface (kind R) and through config::set / del / get<T> / "
@@ -143,9 +169,15 @@ class C10(DiffProperty):
                "ml/c10_driver.ml: expansion of config::environ (explicit and default arguments), the constant handle facts (metatype side of "
                "the global handles; remove(NULL) / assign(NULL, ..) / query(NULL, NULL) of config::root: the observations that follow "
                "show that nothing changed), the glob matcher for * and ?",
+               "an element that holds the default metatype (what an assignment without value leaves) is reported like one without "
+               "metatype: BadType from its conversions is printed as MissingData and the shared default object handed out for "
+               "TypeConvertablePtr as 'no value' (harness/c10_store.c, novalue)",
+               "kind M: the object / configuration / iterator values are made by the harness (struct hcell: they store the text they are "
+               "given through mpt_object_set_value / assign(cfg, NULL, val), count their releases and flag a call with a property name or "
+               "a path); text is read from library-made values through their conversions, from harness-made ones from their own store",
                "asked for the value itself (TypeConvertablePtr) the harnesses compare the pointer handed out with the one the query "
                "handler received and read the text from that object"]
-    level_text = ("proof: Coq theorems (coq/C10/Properties.v, 26, all closed under the global context) "
+    level_text = ("proof: Coq theorems (coq/C10/Properties.v, 35, all closed under the global context) "
                   "C10_path_elements / C10_path_elements_string / C10_string_key / C10_string_key_end / C10_del_key / C10_path_next_element "
                   "(mpt_path_set over ANY byte string or C string, any separator, any assign / end character, any explicit length, any element "
                   "lengths, yields a well-formed path and repeated mpt_path_next visits exactly the separator-delimited components up to the "
@@ -170,7 +202,15 @@ class C10(DiffProperty):
                   "arrays with unused-slot reuse, eager and lazy removal, assignment without value, and its wrappers config::set / del / get), "
                   "C10_assign_frame (an assignment changes the reading of its own key "
                   "only and makes its prefixes present), C10_remove_subtree_only and C10_clear_beneath_only (a removal hides exactly the key and "
-                  "what is beneath it); no bound on path length, element length, tree size or history length; the model is tied to the code on "
+                  "what is beneath it), C10_assign_none_frame + C10_unset_drops_short_text + C10_unset_keeps_long_text (assignment "
+                  "without value through the C store, now an operation of the history theorems C10_api_refines_map / C10_api_step_refines: "
+                  "the key and its prefixes are present afterwards, the reading of every other key is unchanged, the key's value is gone "
+                  "exactly when it was at most 249 bytes long), C10_assign_bad_changes_nothing (a value without text is refused, every key "
+                  "reads as before), C10_meta_set_is_tree_meta_set / C10_meta_set_reads_back / C10_meta_set_refused_changes_nothing / "
+                  "C10_meta_set_releases_replaced_only / C10_meta_set_refines_spec (mpt_meta_set over EVERY kind of value - text, default, "
+                  "object, configuration, iterator, accepting or refusing, view: an accepted text is what the value shows afterwards byte "
+                  "for byte at every length, in place or replaced; a refused call changes and releases nothing; the old value is released "
+                  "only when another took its place); no bound on path length, element length, tree size or history length; the model is tied to the code on "
                   "every run by differential execution under ASan/UBSan (state dumps + every observation path read five ways after every operation)")
     level_note = ("trusted: Coq kernel; hand transcription of the C/C++ files (validated by the correspondence run, not verified); extraction "
                   "and OCaml driver; harnesses. The theorems hold for the tree WITH the 15 fix: commits of branch verif-C10 (path_set string end, "
@@ -187,6 +227,16 @@ class C10(DiffProperty):
                   "prints again), replay docs/C10_get_convertable.replay.json = VIOLATION on /repo; the model and the three "
                   "*_convertable_is_assigned_value theorems describe the patched function; until the switch is on no case asks for the "
                   "value itself. "
+                  "Assignment without value (configAssign(cfg, path, NULL)): the specification takes from the implementation whether "
+                  "the value stayed (HAssignNone) - mpt_meta_set asks the old value for an iterator to rewind before it puts the default "
+                  "metatype in its place (that is how the argument list at mpt.args is rewound), and the buffer metatype mpt_meta_new uses "
+                  "for text of 250 bytes and more IS an iterator: such text survives an assignment without value, shorter text does not "
+                  "(C10_unset_keeps_long_text / C10_unset_drops_short_text state it; replay docs/C10_unset_long_text.replay.json shows it "
+                  "on /repo as result ok+; not patched: both behaviours are what meta_set.c documents, a fix belongs into the choice of "
+                  "metatype for long text). Observations of this round, not patched (docs/notes_C10.md): assign(cfg, NULL-path, val) is "
+                  "refused by every configuration of the library, so the TypeConfigPtr branch of mpt_meta_set never succeeds with them (a "
+                  "view stored as value is replaced by the text); configAssign(cfg, path, NULL) answers 0 when the name cannot be stored and "
+                  "nothing was created; a refused assignment through a view leaves the view's base element created. "
                   "Guards: element names up to 65534 "
                   "bytes (16-bit identifier length; longer names are refused after the nodes in front were created - Example "
                   "C10_name_limit_witness); config::root reports the empty path as absent; config::del lengths up to strlen + 1. "
@@ -202,11 +252,12 @@ class C10(DiffProperty):
                   "config::get(path, metatype *&) fails on a config::root value of 255+ bytes - io::buffer::metatype::convert names its "
                   "own class where ::mpt::metatype is meant (injected class name), so TypeMetaPtr is not answered. Not driven: "
                   "type_properties<config_item>::id / traits of mpt++/config.cpp (declared inline in config.h, defined out of line and never "
-                  "emitted: no program can link against them), assignment without value through the C store, the refusal branches behind a "
-                  "65535-byte name. Link fields of the node tree (checked by the harness, flag in every "
+                  "emitted: no program can link against them); mptcore/meta/meta_new.c lines 48-49, 58-59, 71-73 (no traits for 'c', "
+                  "mpt_buffer_set failing on the buffer just reserved, _mpt_geninfo_set failing on the metatype just sized for the text: "
+                  "unreachable without fault injection; 26 of 33 lines run, meta_set.c 35/35, node_assign.c 33/33). Link fields of the node tree (checked by the harness, flag in every "
                   "observation), identifier storage and buffer management are other properties' subjects (C14, C16, C04).")
     technique = "Coq refinement proof (byte paths + node tree / item slots -> finite map keyed by element lists) + differential correspondence check"
-    assumptions = ["allocation succeeds", "values are text (C strings)", "element names are at most 65534 bytes",
+    assumptions = ["allocation succeeds", "values are text (string, vector of char, array of char; without NUL bytes) or hold no text at all", "element names are at most 65534 bytes",
                    "config::del is called with a length of at most strlen + 1"]
 
     # ------------------------------------------------------------------ running: two harnesses
@@ -238,6 +289,8 @@ class C10(DiffProperty):
 
     def project(self, tok):
         f = tok.split("|")
+        if f[0].startswith("m:"):    # mpt_meta_set on one reference: result class and the text the value shows
+            return f[0] + "|" + f[3] if len(f) == 5 else tok
         if len(f) == 5:          # path case: result (any error code = refused) and the element walk
             return ("E" if f[0].startswith("-") else f[0]) + "|" + f[4]
         if len(f) == 2 and f[0].startswith("-"):
@@ -260,7 +313,9 @@ class C10(DiffProperty):
         t = case.split()
         if t[0] == "T":
             return t[:1], []
-        if t[0] in ("P", "Q"):
+        if t[0] == "M":
+            hdr, rest = t[:1], t[1:]
+        elif t[0] in ("P", "Q"):
             hdr, rest = t[:3], t[3:]
         else:
             nv = int(t[1])
@@ -281,7 +336,7 @@ class C10(DiffProperty):
             yield self.join(hdr, ops[:k] + ops[k + 1:])
         for k in range(1, len(ops)):
             yield self.join(hdr, ops[:k])
-        if hdr[0] not in ("P", "Q", "T"):
+        if hdr[0] not in ("P", "Q", "T", "M"):
             nv = int(hdr[1])
             no = int(hdr[2 + nv])
             obs = hdr[3 + nv:]
@@ -304,6 +359,12 @@ class C10(DiffProperty):
         if hdr[0][1:] == "c":
             cl.add("value-as-convertable")
         if hdr[0] == "T":
+            return cl
+        if hdr[0] == "M":
+            for o in ops:
+                cl.add("m:" + o[0] + (o[1] if o[0] in ("obj", "cfg", "it") else ""))
+                if o[0] in ("s", "v") and len(o[1]) >= 2 * 250:
+                    cl.add("long-value")
             return cl
         if hdr[0] in ("P", "Q"):
             for o in ops:
@@ -394,7 +455,11 @@ class C10(DiffProperty):
         return paths
 
     def gen_value(self, rng):
-        n = rng.choice([0, 1, 1, 5, 5, 5, 5, 249, 250, 254, 255, 256, 300, 1000] if rng.random() < 0.25 else [0, 1, 2, 5])
+        # long values: the limits of the metatypes (249 / 250, 255 / 256) and the block boundaries of the buffer that
+        # holds long text (mpt_meta_new reserves len + 1 bytes, _mpt_buffer_alloc rounds to 128-byte blocks with a
+        # 64-byte header: a reservation that is one byte short only shows at len = 128 * k - 64)
+        n = rng.choice([0, 1, 1, 5, 5, 5, 5, 249, 250, 254, 255, 256, 300, 1000] + self.BLOCKLENS
+                       if rng.random() < 0.25 else [0, 1, 2, 5])
         c = rng.choice(b"vwq0123")
         return bytes([c]) * n if n > 8 else bytes(rng.choice(b"vw19") for _ in range(n))
 
@@ -450,6 +515,8 @@ class C10(DiffProperty):
                     ops += ["y", spec(h, sep, None)]                  # remove(NULL): value of the base element
                 elif y < 0.80 and kind in ("R", "X"):
                     ops += ["z", s]                                   # assignment without value
+                elif y < 0.86 and kind == "G":
+                    ops += ["z", s]                                   # configAssign(cfg, path, NULL) -> mpt_meta_set(.., NULL)
                 elif y < 0.86 and kind in ("R", "X"):
                     ops += ["k", spec(0, sep, None)]                  # remove(NULL) / assign(NULL, ..) / query(NULL, NULL)
                 elif kind in ("H", "X") and envp and rng.random() < 0.6:
@@ -464,7 +531,15 @@ class C10(DiffProperty):
                 e = rng.choice(b"=;")
                 if e not in p and e != sep:
                     s = spec(h, sep, p + bytes([e]) + rng.choice([b"", b"zz", bytes([sep]) + b"q"])) + ":%02x" % e
-            if r < 0.6:
+            if r < 0.6 and kind == "G" and len(s.split(":")) == 3 and rng.random() < 0.3:
+                # a typed value through the interface: string, pointer to a NULL string, vector of char, array of
+                # char (not empty: an array without buffer is no text), an integer (refused)
+                ty = rng.choice("ssvvvbbpi")
+                v = self.gen_value(rng)
+                if ty == "b" and not v:
+                    v = b"q"
+                ops += ["t", s, ty, hx(v)]
+            elif r < 0.6:
                 ops += ["a", s, hx(self.gen_value(rng))]
             elif kind == "J":
                 if p is None:
@@ -533,6 +608,90 @@ class C10(DiffProperty):
                 out.append(" ".join(hdr + ops))
         return out
 
+    BLOCKLENS = [319, 320, 321, 447, 448, 449, 575, 576, 577]            # 128 * k - 64 and its neighbours
+    MLENS = [0, 1, 5, 248, 249, 250, 251, 254, 255, 256, 300, 1000] + BLOCKLENS
+
+    def gen_unsetcases(self):
+        """mpt_meta_set / mpt_meta_new at the length limits of the metatypes that hold text (basic: up to 249 bytes,
+        buffer beyond; 16-bit sizes at 65535): a value of every such length is assigned as string, vector of char and
+        array of char, read back, assigned 'no value' (dropped up to 249 bytes, rewound and kept beyond), overwritten
+        by a value of another length, through the global handle and through a view; an integer is refused in between"""
+        out = []
+        lens = self.MLENS + [65471, 65472, 65473, 65534, 65535, 65536, 65599, 65600, 65601]
+        for k, n in enumerate(lens):
+            v = hx(bytes([0x61 + k % 26]) * n)
+            w = hx(bytes([0x41 + k % 26]) * self.MLENS[(k + 5) % len(self.MLENS)])
+            obs = [spec(0, 0x2e, b"a.b"), spec(1, 0x2e, b"b"), spec(0, 0x2e, b"a"), spec(1, 0x2e, None), spec(0, 0x2e, b"a.b.c")]
+            hdr = ["G", "1", spec(0, 0x2e, b"a"), str(len(obs))] + obs
+            for ty in "svb":
+                if (ty == "b" and n == 0) or (n > 60000 and ty != "sv"[n % 2]):
+                    continue
+                if n > 60000:
+                    # the 16-bit neighbourhood: a shorter history (each value of this size costs the model about 0.1 s)
+                    out.append(" ".join(hdr[:3] + ["2"] + obs[:2] + ["t", spec(0, 0x2e, b"a.b"), ty, v, "z", spec(1, 0x2e, b"b"),
+                                                                   "a", spec(0, 0x2e, b"a.b"), w, "t", spec(1, 0x2e, b"b"), ty, v]))
+                    continue
+                ops = ["t", spec(0, 0x2e, b"a.b"), ty, v, "z", spec(1, 0x2e, b"b"), "t", spec(1, 0x2e, b"b"), "i", "-",
+                       "t", spec(1, 0x2e, None), ty, v, "a", spec(0, 0x2e, b"a.b"), w, "z", spec(1, 0x2e, None),
+                       "z", spec(0, 0x2e, b"a.b"), "t", spec(0, 0x2e, b"a.b.c"), "v", v, "z", spec(0, 0x2e, b"a.b.c"),
+                       "r", spec(0, 0x2e, b"a.b"), "z", spec(0, 0x2e, b"a.b")]
+                out.append(" ".join(hdr + ops))
+        # the same lengths through the other stores (assign / overwrite / remove)
+        for kind in "HRX":
+            for k, n in enumerate([249, 250, 254, 255, 320, 448] + ([65472, 65535, 65536, 65600] if kind == "R" else [])):
+                v = hx(bytes([0x61 + k]) * n)
+                obs = [spec(0, 0x2e, b"a.b"), spec(0, 0x2e, b"a")]
+                out.append(" ".join([kind, "0", str(len(obs))] + obs + ["a", spec(0, 0x2e, b"a.b"), v, "a", spec(0, 0x2e, b"a"), v,
+                                                                      "a", spec(0, 0x2e, b"a.b"), "31", "r", spec(0, 0x2e, b"a")]))
+        return out
+
+    def gen_namecases(self):
+        """element names at the 16-bit limit of the identifier (65534 fits, 65535 and 65536 do not): mpt_node_assign
+        gives up AFTER the nodes in front were created and releases the value it had made; a view on such a base"""
+        out = []
+        for n, paths in ((65534, (b"a.%s.b", b"%s")), (65535, (b"a.%s.b", b"%s")), (65536, (b"a.%s",))):
+            name = b"n" * n
+            for pth in paths:
+                pth = pth % name
+                obs = [spec(0, 0x2e, pth), spec(0, 0x2e, b"a"), spec(0, 0x2e, b"a.x")]
+                hdr = ["G", "0", str(len(obs))] + obs
+                # assignment without value of a name that cannot be stored answers 0 although nothing was
+                # created (configAssign: "return val ? BadOperation : 0"): outside the guard of the theorems
+                unset = ["z", spec(0, 0x2e, pth)] if n == 65534 else []
+                out.append(" ".join(hdr + ["a", spec(0, 0x2e, b"a.x"), "31", "a", spec(0, 0x2e, pth), "32"] + unset +
+                                    ["a", spec(0, 0x2e, pth), hx(b"v" * 300), "r", spec(0, 0x2e, pth)]))
+        return out
+
+    def metaset_ops(self):
+        return [["s", "6162"], ["s", hx(b"p" * 249)], ["s", hx(b"q" * 250)], ["v", "63"], ["i"], ["0"],
+                ["obj", "a"], ["obj", "r"], ["cfg", "a"], ["cfg", "r"], ["it", "a"], ["it", "r"], ["view", "a"]]
+
+    def exhaustive_metaset(self, depth):
+        """every history of length <= depth of mpt_meta_set calls on one metatype reference over: text that fits the
+        basic metatype (2 and 249 bytes), text that does not (250), a vector of char, an integer, no value, and the
+        installation of a value that is an object / a configuration / an iterator (each accepting or refusing) or a
+        view of the process-wide configuration"""
+        out = []
+        for n in range(1, depth + 1):
+            for seq in itertools.product(self.metaset_ops(), repeat=n):
+                out.append(" ".join(["M"] + [t for o in seq for t in o]))
+        return out
+
+    def gen_metaset(self, rng):
+        ops = []
+        for _ in range(rng.choice([4, 6, 9])):
+            r = rng.random()
+            if r < 0.45:
+                n = rng.choice(self.MLENS + ([65472, 65535, 65536, 65600] if rng.random() < 0.05 else []))
+                ops += [rng.choice("sv"), hx(bytes([rng.choice(b"abcxyz")]) * n)]
+            elif r < 0.60:
+                ops += ["0"]
+            elif r < 0.68:
+                ops += ["i"]
+            else:
+                ops += rng.choice(self.metaset_ops()[6:])
+        return " ".join(["M"] + ops)
+
     def exhaustive_store(self, kind, depth):
         paths = [b"a", b"b", b"a.a", b"a.b", b""]
         obs = [spec(0, 0x2e, p) for p in paths] + [spec(0, 0x2e, b"a.a.a")]
@@ -543,6 +702,8 @@ class C10(DiffProperty):
         for i, p in enumerate(paths):
             single.append(["a", spec(0, 0x2e, p), "3%d" % i])
             single.append(["d" if kind == "J" or (kind in ("H", "X") and i % 2) else "r", spec(0, 0x2e, p)])
+            if kind == "G" and p in (b"a", b"a.b"):
+                single.append(["z", spec(0, 0x2e, p)])                # assignment without value
         out = []
         for n in range(1, depth + 1):
             for seq in itertools.product(single, repeat=n):
@@ -551,13 +712,15 @@ class C10(DiffProperty):
 
     def exhaustive_views(self, depth):
         """every history of length <= depth over the operations of one sub-tree view (base a.b) and the global
-        handle around it: assign / remove through both, remove(NULL), node conversion, listing, clone"""
+        handle around it: assign / remove through both, remove(NULL), node conversion, listing, clone, assignment
+        without value (of the base element, of an element beneath it), refused assignment of a value without text"""
         base = spec(0, 0x2e, b"a.b")
         obs = [spec(0, 0x2e, b"a"), base, spec(1, 0x2e, None), spec(1, 0x2e, b"c"), spec(0, 0x2e, b"a.b.c")]
         hdr = ["G", "1", base, str(len(obs))] + obs
         single = [["a", spec(1, 0x2e, None), "31"], ["a", spec(1, 0x2e, b"c"), "32"], ["y", spec(1, 0x2e, None)],
                   ["n", spec(1, 0x2e, None)], ["r", spec(1, 0x2e, None)], ["r", spec(0, 0x2e, b"a")],
-                  ["l", spec(0, 0x2e, b"a")], ["k", spec(1, 0x2e, None)]]
+                  ["l", spec(0, 0x2e, b"a")], ["k", spec(1, 0x2e, None)],
+                  ["z", spec(1, 0x2e, None)], ["z", spec(1, 0x2e, b"c")], ["t", spec(1, 0x2e, b"c"), "i", "-"]]
         out = []
         for n in range(1, depth + 1):
             for seq in itertools.product(single, repeat=n):
@@ -672,6 +835,11 @@ class C10(DiffProperty):
                 cases.append(self.gen_forkcase(rng))
         if PATCHED_GET_CONVERTABLE:
             cases += self.gen_convcases()
+        cases += self.gen_unsetcases()
+        cases += self.gen_namecases()
+        cases += self.exhaustive_metaset(depth)
+        for i in range(300 if tier == "quick" else 6000):
+            cases.append(self.gen_metaset(rng))
         return [self.conv_form(self.clear_form(c)) for c in cases]
 
     @staticmethod
